@@ -42,7 +42,14 @@ MonotoneHull(P) == LET s == SortPts(P) lo == Chain(s, <<>>) up == Chain(RevSeq(s
 
 MinS0(S) == CHOOSE x \in S : \A y \in S : x <= y
 MaxS0(S) == CHOOSE x \in S : \A y \in S : x >= y
-RatLe(a,b) == a[1]*b[2] <= b[1]*a[2]
+\* a/b <= c/d for a, c >= 0 and b, d > 0 by continued fractions: no product is formed, so nothing overflows TLC's 32-bit
+\* integers however large the lattice
+RECURSIVE RatLeP(_,_,_,_)
+RatLeP(a,b,c,d) == LET q1 == a \div b q2 == c \div d IN
+  IF q1 # q2 THEN q1 < q2
+  ELSE LET r1 == a % b r2 == c % d IN
+       IF r1 = 0 THEN TRUE ELSE IF r2 = 0 THEN FALSE ELSE RatLeP(d, r2, b, r1)
+RatLe(a,b) == RatLeP(a[1], a[2], b[1], b[2])
 RatMin(S) == CHOOSE x \in S : \A y \in S : RatLe(x,y)
 
 \* ---- rotated rectangles.  hull ring r (closed, CCW or CW), n = Len(r)-1 edges
@@ -69,5 +76,8 @@ RectCovers(c,VS) == \/ \A v \in VS : \A i \in 1..4 : SideCross(c,i,v) >= -RT*Sid
 NearLine(p,q,x) == Abs(Cross(q[1]-p[1], q[2]-p[2], x[1]-p[1]*RK, x[2]-p[2]*RK)) <= RT*(Abs(q[1]-p[1])+Abs(q[2]-p[2]))
 RectAligned(c,r) == \E i \in 1..(Len(r)-1) : \E j \in 1..4 : NearLine(r[i],r[i+1],c[j]) /\ NearLine(r[i],r[i+1],c[j+1])
 \* logged n = floor(value * 1024) against the exact rational v = <<num,den>>, with relative slack
-ValNear(n,v) == Abs(n*v[2] - v[1]*1024) <= 8*v[2] + (v[1] \div 64)
+\* (|n - 1024*num/den| <= 8 + num/(64*den), evaluated with quotients so that no product exceeds 32 bits: the exact
+\* floor of 1024*num/den is 1024*q + floor(1024*rem/den); one more unit of slack pays for the two floors)
+ValNear(n,v) == LET q == v[1] \div v[2] rem == v[1] % v[2] T == 1024*q + ((1024*rem) \div v[2]) IN
+                Abs(n - T) <= 9 + (q \div 64)
 =============================================================================
